@@ -260,16 +260,21 @@ async def _drive(eng, senders_samples, sub_engines, n_out=1):
     return outs
 
 
-def run_api(t, n, values, leafz=None, compz=False):
-    """values: list of Quantity|None per input.  Returns the first output sample, 'timeout' or 'error:..'."""
+def run_api(t, n, values, leafz=None, compz=False, pre=None):
+    """values: list of Quantity|None per input.  Returns the first output sample, 'timeout' or 'error:..'.
+    pre: per input the number of EARLIER samples (stamped TS - k s, value 1000 + k W) its stream delivers before the one stamped TS."""
     leafz = leafz or [False] * n
+    pre = pre or [0] * n
 
     async def scenario():
         chans = [Broadcast[Sample[Power]](name=f"c{i}") for i in range(n)]
         engs = [FormulaEngine.from_receiver(f"e{i}", chans[i].new_receiver(), Power.from_watts, nones_are_zeros=leafz[i]) for i in range(n)]
         b = api_build(t, engs)
         eng = b.build("f", nones_are_zeros=compz)
-        feeds = [(chans[i].new_sender(), Sample(TS, values[i])) for i in range(n)]
+        snd = [chans[i].new_sender() for i in range(n)]
+        from datetime import timedelta as _td
+        feeds = [(snd[i], Sample(TS - _td(seconds=k), Power.from_watts(1000.0 + k))) for i in range(n) for k in range(pre[i], 0, -1)]
+        feeds += [(snd[i], Sample(TS, values[i])) for i in range(n)]
         return (await _drive(eng, feeds, engs))[0]
     return run_loop(scenario())
 
